@@ -57,17 +57,19 @@ _UUID = _re.compile(r"[0-9a-f]{8}-[0-9a-f]{4}-[0-9a-f]{4}-[0-9a-f]{4}-[0-9a-f]{1
 
 
 def differential(res, replay):
-    """'No edit of a copy ever changes the original' also in its delayed form: replay the history
-    without the operations that only edited copy-derived trees; every object outside those trees
-    must end up exactly as in the full run."""
-    from simkit.monitors import root_index, subtree_indices
-    from simkit.session import signature
+    """'No edit of a copy ever changes the original, and vice versa' also in its delayed form.
+    (a) replay the history without the operations that only edited copy-derived trees: every
+    object outside those trees must end up exactly as in the full run;  (b) replay it without the
+    operations that, after the last copy was made, only edited objects outside the copy-derived
+    trees: every object inside them must end up exactly as in the full run."""
+    from simkit.monitors import subtree_indices
     info = res.extra.get("steps_info") or []
     snaps = [s_ for s_ in (res.extra.get("snapshots") or []) if s_ is not None]
     if not info or len(snaps) != len(info):
         return
     derived = set()        # registry indices of objects that belong to copies
-    leave_out = set()
+    edits_of_copies = set()
+    edits_of_originals = set()
     for k, st in enumerate(info):
         post = snaps[k]
         args = set(st["arg_idx"])
@@ -75,6 +77,7 @@ def differential(res, replay):
             for key in ("new", "again"):
                 if st.get(key) is not None and st[key] < len(post["objs"]):
                     derived.update(subtree_indices(post, st[key]))
+            edits_of_originals.clear()      # (b) is about edits made after the last copy
             continue
         if args & derived and not args <= derived:
             return          # a copy and an original meet in one operation: no longer independent
@@ -83,17 +86,29 @@ def differential(res, replay):
         if args and args <= derived:
             derived.update(range(st["n_pre"], len(post["objs"])))     # what the op created
             if st["op"] in PURE_EDITS and st["outcome"] == "ret":
-                leave_out.add(st["step"])
-    if not leave_out:
+                edits_of_copies.add(st["step"])
+        elif args and derived and st["op"] in PURE_EDITS and st["outcome"] == "ret":
+            edits_of_originals.add(st["step"])
+    if not edits_of_copies and not edits_of_originals:
         return
     # an op that quotes an id of this run (a name chosen to equal an existing id) means something
     # else in a replay whose ids come out differently: such histories are not compared
     import json as _json
-    _snaps = [s_ for s_ in (res.extra.get("snapshots") or []) if s_ is not None]
     _text = _json.dumps(res.case["ops"], default=repr)
     if any(m != "5b6a1b40-2bd4-4a12-8f3c-0a1b2c3d4e5f" and "odml-verif" not in m
            for m in _UUID.findall(_text)):
         return          # (the generator's one fixed id is the same text in every run)
+    if edits_of_copies:
+        _compare(res, replay, snaps, edits_of_copies, lambda i: i not in derived,
+                 "the edits of copies")
+    if edits_of_originals and res.violation is None:
+        _compare(res, replay, snaps, edits_of_originals, lambda i: i in derived,
+                 "the edits of originals made after the last copy")
+
+
+def _compare(res, replay, snaps, leave_out, judged, what):
+    import json as _json
+    from simkit.session import signature
     res.stats["differential_replays"] = res.stats.get("differential_replays", 0) + 1
     other = replay(res.case, leave_out)
     # the two runs must have registered the same objects at every step they share: if an op
@@ -107,13 +122,13 @@ def differential(res, replay):
         if sa is not None and sb is not None and len(sa["objs"]) != len(sb["objs"]):
             return
     final_a = snaps[-1]
-    snaps_b = [s_ for s_ in (other.extra.get("snapshots") or []) if s_ is not None]
+    snaps_b = [s_ for s_ in all_b if s_ is not None]
     if not snaps_b:
         return
     final_b = snaps_b[-1]
     if len(final_a["objs"]) != len(final_b["objs"]):
         return      # the registries diverged (an op resolved differently): nothing to compare
-    copy_derived = derived
+
     def no_ids(rec):
         # ids come from one seeded stream: leaving out an op that draws from it shifts the ids
         # of everything created later; the comparison is about content
@@ -121,7 +136,7 @@ def differential(res, replay):
         out.pop("id", None)
         return _json.loads(_UUID.sub("<uuid>", _json.dumps(out, sort_keys=True, default=repr)))
     for i, (ra, rb) in enumerate(zip(final_a["objs"], final_b["objs"])):
-        if i in copy_derived:
+        if not judged(i):
             continue
         ra, rb = no_ids(ra), no_ids(rb)
         if ra != rb:
@@ -130,8 +145,8 @@ def differential(res, replay):
             res.violation = {
                 "monitor": "copy.delayed-independence", "step": len(res.case["ops"]),
                 "op": {"op": "differential"}, "labels": [], "outcome": ["ret"],
-                "message": "obj#%d ends up different in %r when the edits of copies (steps %r) are "
-                           "left out of the history: %r vs %r" % (i, keys, steps[:6],
+                "message": "obj#%d ends up different in %r when %s (steps %r) are "
+                           "left out of the history: %r vs %r" % (i, keys, what, steps[:6],
                                                                   ra.get(keys[0]), rb.get(keys[0])),
                 "signature": signature("copy.delayed-independence", "differential", [])}
             return
